@@ -268,6 +268,7 @@ package values
 
 // a[i]: integer index (floats truncate), negative counts from the end, anything else is nil
 //@ func (values.arrayValue).IndexValue
+//@ overflow
 //@ props C08 C18 C01
 //@ panics nothing
 //@ requires arg: iv != nil
@@ -281,6 +282,7 @@ package values
 
 // a.first, a.last, a.size; any other property of an array is nil
 //@ func (values.arrayValue).PropertyValue
+//@ overflow
 //@ props C08 C18 C01
 //@ panics nothing
 //@ requires arg: iv != nil
